@@ -19,6 +19,32 @@ VERSIONS = {"v1": "TorrentFile", "v2": "Assembler2", "hy": "Assembler3",
             "foreign": None}
 
 
+def temp_names(T):
+    """Customary temporary / backup / lock names a writer might use next to
+    an output file called T (stem S = T without '.torrent'); all of them are
+    bystanders that `create` has to leave alone."""
+    S = T[:-len(".torrent")] if T.endswith(".torrent") else T
+    return [T + ".part", T + ".tmp", T + "~", T + ".bak", T + ".swp",
+            "." + T + ".swp", T + ".new", T + ".lock", T + ".1", T + ".old",
+            T + ".orig", T + ".temp", T + ".partial", T + ".download",
+            "." + T, "." + T + ".tmp", "." + T + ".part", "#" + T + "#",
+            "~" + T, S + ".part", S + ".tmp", S + "~", S + ".torrent.0",
+            T + ".torrent"]
+
+
+# what an output path that is a symbolic link points to (the link text)
+LINK_KINDS = {
+    # a relative link to a name in the same directory that does not exist
+    "dangling": lambda sb: "elsewhere.torrent",
+    # an absolute link to a missing name in another (existing) directory
+    "dangling-far": lambda sb: os.path.join(sb, "far", "real.torrent"),
+    # a relative link to an existing file in the same directory
+    "live": lambda sb: "real-output.torrent",
+    # a link to a link to a missing name (thorough tier)
+    "dangling-chain": lambda sb: "hop.torrent",
+}
+
+
 def build_sandbox(seed, version, pstate):
     """sandbox/
          cwd/            (.torrent, top.torrent?, unrelated.txt)
@@ -71,6 +97,15 @@ def diff(before, after):
     return changed
 
 
+def entries(snap, names, sb):
+    """The snapshot entries of `names` for a violation's detail: type, size,
+    link text.  Kept free of what differs from run to run: the scratch path
+    is masked, digests are left out (metafiles carry a creation date)."""
+    return {c: [snap[c][0], snap[c][1]] + (
+        [snap[c][2].replace(sb, "<SB>")] if snap[c][0] == "l" else [])
+        for c in names if c in snap}
+
+
 class ReadOnlyCheck:
     id = "C18"
 
@@ -97,11 +132,44 @@ class ReadOnlyCheck:
             "rename: target name free / taken (by a file, by a directory, "
             "with the current name differing only in case, with a relative "
             "argument) / already correct",
+            "create bystanders 'temps': 24 neighbours named after the output "
+            "metafile T with the customary temporary / backup / lock "
+            "suffixes and prefixes (T.part, T.tmp, T~, T.bak, T.swp, .T.swp, "
+            "T.new, T.lock, T.1, .T, #T#, stem.part, ...) beside the output "
+            "path (the first four also in the other one of output / working "
+            "directory), for every head x output "
+            "location (explicit -o, -o dir/, default in cwd; fresh / "
+            "existing / existing-empty), x option set under the head "
+            "'create' (thorough: under every head)",
+            "create with the output path being a symbolic link (relative "
+            "dangling, absolute dangling into another directory, live; "
+            "thorough: a dangling chain, x --magnet x option sets x temps) "
+            "for -o file, -o dir/ and the default name in cwd; accepted: "
+            "the metafile written THROUGH the link (link unchanged, the file "
+            "it leads to created / replaced) or the link REPLACED by a "
+            "regular file - in both cases that one path is the whole "
+            "before/after difference",
+            "create with the probe name '.torrent' of the output / working "
+            "directory being a symbolic link (dangling, live)",
+            "rename through an alias: argument = the metafile / a symbolic "
+            "link beside it (relative, absolute, chain of two; thorough: "
+            "'./' text, chain of three, absolute chain, relative argument) "
+            "/ a second hard-linked name, x the metafile already properly "
+            "named (the proper name is taken by the alias's own target: the "
+            "file must stay untouched; no error demanded; only the alias "
+            "entry may disappear) / proper name free (exactly one entry - "
+            "the one named or the file a symbolic link leads to - takes the "
+            "name, same bytes) / taken by a file, a dangling symbolic link, "
+            "a live symbolic link, a symbolic link to a directory (error, "
+            "nothing changes: a symbolic link is an existing entry)",
         ]
         self.rule = (
             "full product of the configuration axes; state = one distinct "
             "(sandbox, command line); transition = one command executed on "
-            "the real code; oracle = snapshot difference + audited events")
+            "the real code; oracle = snapshot difference + audited events; "
+            "rename's alias axes (argument alias x proper-name occupant) and "
+            "create's link axes (output location x link kind) are full "
+            "products too, snapshots taken without following links")
 
     def groups(self, tier, seed):
         gs = []
@@ -112,7 +180,8 @@ class ReadOnlyCheck:
             if v != "foreign":
                 gs.append({"kind": "create", "version": v, "seed": seed,
                            "tier": tier})
-            gs.append({"kind": "rename", "version": v, "seed": seed})
+            gs.append({"kind": "rename", "version": v, "seed": seed,
+                       "tier": tier})
         return gs
 
     # ------------------------------------------------------------------
@@ -230,13 +299,42 @@ class ReadOnlyCheck:
         # creates that fail before anything is written
         for head, out, optset in itertools.product(heads, outs + [
                 "file-existing-empty"], optsets):
-            for by in ("dot-empty", "dot-full", "name-empty"):
+            for by in ("dot-empty", "dot-full", "name-empty", "temps"):
+                # quick: the temporary-name neighbours meet every head and
+                # output location, the option sets under 'create' only
+                if by == "temps" and tier != "thorough" and \
+                        optset != "none" and head != "create":
+                    continue
                 yield {"head": head, "out": out, "prog": "0", "magnet": False,
                        "opts": optset, "by": by}
             yield {"head": head, "out": out, "prog": "0", "magnet": False,
                    "opts": optset, "by": "dot-empty", "fail": "missing"}
             yield {"head": head, "out": out, "prog": "0", "magnet": False,
                    "opts": optset, "fail": "missing"}
+        # the output path is a symbolic link (dangling / live / chain), and
+        # the probe name '.torrent' in the output directory is one
+        thorough = tier == "thorough"
+        for head in heads:
+            for base in ("file", "dir/", "default"):
+                for lk in LINK_KINDS:
+                    if lk == "dangling-chain" and not thorough:
+                        continue
+                    for mag, optset in (itertools.product(mags, optsets)
+                                        if thorough else [(False, "none")]):
+                        yield {"head": head, "out": base + "@" + lk,
+                               "prog": "0", "magnet": mag, "opts": optset}
+                    if thorough:
+                        yield {"head": head, "out": base + "@" + lk,
+                               "prog": "0", "magnet": False, "opts": "none",
+                               "by": "temps"}
+                for by in ("dot-link-dangling", "dot-link-live"):
+                    # (with an explicit -o file the name '.torrent' plays no
+                    # part; those are the thorough tier's controls)
+                    for out in ((base,) if base == "dir/" else
+                                (base, base + "-existing")
+                                if base == "default" or thorough else ()):
+                        yield {"head": head, "out": out, "prog": "0",
+                               "magnet": False, "opts": "none", "by": by}
 
     def run_create_single(self, g, res):
         """A single-file payload whose own name ends in .torrent, output name
@@ -315,14 +413,30 @@ class ReadOnlyCheck:
                 os.path.join(sb, "no", "such", NAME)
             argv += [content_arg, "--meta-version", version, "--prog",
                      cc["prog"], "--piece-length", str(P0)]
-            if cc["out"].startswith("file"):
+            obase, _, lkind = cc["out"].partition("@")
+            if obase.startswith("file"):
                 target = os.path.join(outdir, "result.torrent")
                 argv += ["-o", target]
-            elif cc["out"] == "dir/":
+            elif obase == "dir/":
                 target = os.path.join(outdir, NAME + ".torrent")
                 argv += ["-o", outdir + os.sep]
             else:
                 target = os.path.join(cwd, NAME + ".torrent")
+            resolved = None
+            if lkind:
+                # the output path is a symbolic link
+                tdir = os.path.dirname(target)
+                world.write_file(os.path.join(sb, "far", "unrelated.txt"),
+                                 b"keep me too")
+                text = LINK_KINDS[lkind](sb)
+                os.symlink(text, target)
+                if lkind == "live":
+                    world.write_file(os.path.join(tdir, text),
+                                     b"old metafile bytes behind a link")
+                if lkind == "dangling-chain":
+                    os.symlink("end-of-chain.torrent",
+                               os.path.join(tdir, text))
+                resolved = os.path.realpath(target)
             if cc["out"].endswith("existing"):
                 world.write_file(target, b"old metafile bytes")
             if cc["out"].endswith("existing-empty"):
@@ -336,6 +450,24 @@ class ReadOnlyCheck:
                 elif cc.get("by") == "name-empty":
                     world.write_file(os.path.join(d_, NAME), b"")
                     world.write_file(os.path.join(d_, "torrent"), b"")
+                elif cc.get("by") == "temps":
+                    # neighbours named after the output metafile with the
+                    # customary temporary suffixes and prefixes
+                    # (all of them beside the output path; the first four
+                    # also in the other directory)
+                    tns = temp_names(os.path.basename(target))
+                    if d_ != os.path.dirname(target):
+                        tns = tns[:4]
+                    for i, tn in enumerate(tns):
+                        world.write_file(
+                            os.path.join(d_, tn),
+                            b"" if i % 7 == 6 else b"user's own %d" % i)
+                elif cc.get("by") == "dot-link-dangling":
+                    os.remove(os.path.join(d_, ".torrent"))
+                    os.symlink("dot-gone", os.path.join(d_, ".torrent"))
+                elif cc.get("by") == "dot-link-live":
+                    os.remove(os.path.join(d_, ".torrent"))
+                    os.symlink("unrelated.txt", os.path.join(d_, ".torrent"))
             if cc["magnet"]:
                 argv.append("--magnet")
             if cc["opts"] == "all":
@@ -358,9 +490,37 @@ class ReadOnlyCheck:
             res.validated += 1
             changed = diff(before, after)
             trel = os.path.relpath(target, sb)
-            case = dict(cc, kind="create", version=g["version"], seed=seed)
+            case = dict(cc, kind="create", version=g["version"], seed=seed,
+                        tier=g.get("tier", "quick"))
             prob = None
-            if cc.get("fail"):
+            rrel = os.path.relpath(resolved, sb) if resolved else None
+            if lkind and not err:
+                # 'exactly one file, the output metafile' when the output
+                # path is a symbolic link: either written THROUGH the link
+                # (the link stays, the file it leads to is created or
+                # replaced) or the link itself is REPLACED by a regular file;
+                # either way nothing else appears, changes or disappears
+                through = (changed == [rrel] and after[rrel][0] == "f")
+                replaced = (changed == [trel] and after[trel][0] == "f")
+                if not (through or replaced):
+                    others = [c for c in changed if c not in (trel, rrel)]
+                    gone = [c for c in others if c not in after]
+                    if gone:
+                        prob = "deletes-other-file:" + os.path.basename(
+                            gone[0])
+                    elif others:
+                        prob = "changes-other-path"
+                    elif not changed:
+                        prob = "output-not-written"
+                    elif after.get(trel, ("",))[0] == "f" and \
+                            rrel in changed:
+                        # both at once: the link was replaced by a regular
+                        # file AND the file it led to was created / altered
+                        prob = "link-replaced-and-its-target-" + (
+                            "altered" if rrel in before else "created")
+                    else:
+                        prob = "output-metafile-missing"
+            elif cc.get("fail"):
                 # nothing may change when the create fails up front
                 if changed:
                     gone = [c for c in changed if c not in after]
@@ -381,8 +541,15 @@ class ReadOnlyCheck:
                 prob = "output-not-written"
             res.outcomes[prob or "ok"] += 1
             if prob:
-                res.violation(f"C18|create|{prob}|out={cc['out']}", case,
-                              {"changed": changed[:6], "error": err})
+                by = cc.get("by", "")
+                oclass = obase + ("@" + lkind.split("-")[0] if lkind else "")
+                res.violation(
+                    f"C18|create|{prob}|out={oclass}" + (
+                        f"|by={by}" if by.startswith(("temps", "dot-link"))
+                        else ""), case,
+                    {"changed": changed[:6], "error": err,
+                     "before": entries(before, changed[:6], sb),
+                     "after": entries(after, changed[:6], sb)})
         res.sample({"kind": "create", "version": g["version"]})
 
     def run_rename(self, g, res):
@@ -459,6 +626,7 @@ class ReadOnlyCheck:
                                "version": g["version"], "seed": seed},
                               {"changed": changed, "error": err})
         res.sample({"kind": "rename", "version": g["version"]})
+        self.run_rename_links(g, res)
         # names near the file-name length limit, with other metafiles lying
         # under every shortened form of the wanted name
         for L in (100, 245, 246, 247, 248, 249, 250, 251, 254, 255, 256, 300):
@@ -518,6 +686,144 @@ class ReadOnlyCheck:
                                "version": g["version"], "seed": seed},
                               {"changed": changed[:4], "error": err})
 
+    def link_variants(self, tier):
+        """(alias, place, occupant, argument spelling): how the argument names
+        the metafile (directly, through a symbolic link beside it - relative,
+        absolute, a chain -, or under a second hard-linked name), whether the
+        metafile already carries its proper name, and what sits at the proper
+        name otherwise."""
+        thorough = tier == "thorough"
+        aliases = ["none", "sym-rel", "sym-abs", "sym-chain", "hard"]
+        if thorough:
+            aliases += ["sym-dot", "sym-chain3", "sym-abs-chain"]
+        out = []
+        for alias in aliases:
+            for place, occ in [("proper", "self"), ("m", "none"),
+                               ("m", "file"), ("m", "dangling-link"),
+                               ("m", "live-link"), ("m", "link-to-dir")]:
+                if alias == "none" and occ in ("self", "none", "file"):
+                    continue        # the plain variants of run_rename
+                for spell in (("abs", "rel") if thorough else ("abs",)):
+                    out.append((alias, place, occ, spell))
+        return out
+
+    def run_rename_links(self, g, res):
+        """rename when the argument is an alias of the metafile and / or the
+        proper name is occupied by a symbolic link."""
+        seed = g["seed"]
+        tier = g.get("tier", "quick")
+        for alias, place, occ, spell in self.link_variants(tier):
+            variant = f"{alias}:{place}:{occ}" + (
+                ":relarg" if spell == "rel" else "")
+            sb, root, mpath = build_sandbox(seed, g["version"], "intact")
+            cwd = os.path.join(sb, "cwd")
+            mdir = os.path.dirname(mpath)
+            target = os.path.join(mdir, NAME + ".torrent")
+            real = mpath
+            if place == "proper":
+                os.rename(mpath, target)
+                real = target
+            elif occ == "file":
+                world.write_file(target, b"someone else's file")
+            elif occ == "dangling-link":
+                os.symlink("no-such-file", target)
+            elif occ == "live-link":
+                world.write_file(os.path.join(mdir, "other.bin"),
+                                 b"someone else's data")
+                os.symlink("other.bin", target)
+            elif occ == "link-to-dir":
+                os.mkdir(os.path.join(mdir, "somedir"))
+                os.symlink("somedir", target)
+            rbase = os.path.basename(real)
+            src = os.path.join(mdir, "latest.torrent")
+            if alias == "none":
+                src = real
+            elif alias == "sym-rel":
+                os.symlink(rbase, src)
+            elif alias == "sym-dot":
+                os.symlink(os.path.join(".", rbase), src)
+            elif alias == "sym-abs":
+                os.symlink(real, src)
+            elif alias in ("sym-chain", "sym-chain3", "sym-abs-chain"):
+                hop = os.path.join(mdir, "hop.torrent")
+                if alias == "sym-chain3":
+                    os.symlink(rbase, os.path.join(mdir, "hop2.torrent"))
+                    os.symlink("hop2.torrent", hop)
+                else:
+                    os.symlink(rbase, hop)
+                os.symlink(hop if alias == "sym-abs-chain"
+                           else "hop.torrent", src)
+            elif alias == "hard":
+                os.link(real, src)
+            with open(src, "rb") as f:
+                raw = f.read()
+            before = world.snapshot(sb)
+            err = None
+            arg, rcwd = (src, cwd) if spell == "abs" else \
+                (os.path.basename(src), mdir)
+            try:
+                self.exec_cmd("cli", ["rename", arg], rcwd)
+            except BaseException as e:  # noqa
+                err = type(e).__name__
+            after = world.snapshot(sb)
+            changed = diff(before, after)
+            res.states += 1
+            res.transitions += 1
+            res.evals += 1
+            res.validated += 1
+            srel, trel = os.path.relpath(src, sb), os.path.relpath(target, sb)
+            prob = None
+            if place == "proper":
+                # the proper name is taken by the metafile itself: the file
+                # must stay as it is (an error is not demanded; dropping the
+                # alias entry alone would not replace or alter anything)
+                if changed and not (changed == [srel] and srel != trel
+                                    and srel not in after):
+                    prob = "clobbered-or-changed-existing"
+            elif occ != "none":
+                # whatever occupies the proper name - also a symbolic link,
+                # dangling or not - is an existing entry: refuse, touch nothing
+                if changed:
+                    prob = "clobbered-or-changed-existing"
+                elif not err:
+                    prob = "no-error-when-target-taken"
+            else:
+                # free: exactly one entry takes the proper name - the entry
+                # the argument names or, for a symbolic link, the file it
+                # leads to - and the bytes read under that name are the same
+                movers = [srel] + ([os.path.relpath(real, sb)]
+                                   if alias.startswith("sym") else [])
+                if err:
+                    prob = "rename-raised:" + err
+                elif not any(sorted(changed) == sorted([m, trel])
+                             for m in movers):
+                    prob = "other-paths-changed"
+                elif trel not in after or not any(
+                        m in changed and m not in after for m in movers):
+                    prob = "name-not-changed"
+                else:
+                    try:
+                        with open(target, "rb") as f:
+                            if f.read() != raw:
+                                prob = "bytes-changed"
+                    except OSError:
+                        prob = "bytes-changed"
+            res.outcomes[prob or "ok"] += 1
+            if prob:
+                akind = "symlink" if alias.startswith("sym") else \
+                    "hardlink" if alias == "hard" else "plain"
+                coarse = (f"{akind}-alias-of-properly-named"
+                          if place == "proper" else
+                          f"{akind}-alias-free" if occ == "none" else
+                          f"taken-by-{occ}")
+                res.violation(
+                    f"C18|rename|{prob}|{coarse}",
+                    {"kind": "rename", "variant": variant,
+                     "version": g["version"], "seed": seed, "tier": tier},
+                    {"changed": changed, "error": err,
+                     "before": entries(before, changed, sb),
+                     "after": entries(after, changed, sb)})
+
     def run_group(self, g):
         res = core.Result()
         if g["kind"] == "readonly":
@@ -532,6 +838,7 @@ class ReadOnlyCheck:
         res = core.Result()
         g = {"version": case["version"], "seed": case["seed"],
              "pstate": case.get("pstate", "intact"),
+             "tier": case.get("tier", "quick"),
              "kind": "create" if case["kind"] == "create-single"
              else case["kind"]}
         self.run_group(g)
